@@ -138,7 +138,7 @@ def c_table(tb):
             L.b(e['kind'] == 'elem'), L.nat(e['locus']), L.q(e['p']), L.nat(e['prog'])) for e in p['events']]),
         L.lst(p['setup'], c_action)) for p in tb['procs']])
     progs = L.lst(['(static %s)' % L.lst(pr, c_action) for pr in tb['progs']])
-    return '{| t_maxtime := %s; t_loci := %s; t_procs := %s; t_progs := %s; t_world := tt |}' % (L.q(tb['maxtime']), loci, procs, progs)
+    return '{| t_maxtime := %s; t_loci := %s; t_procs := %s; t_progs := %s; t_world := tt; t_equil := fun _ _ => false |}' % (L.q(tb['maxtime']), loci, procs, progs)
 
 
 def c_name(n):
